@@ -258,8 +258,12 @@ class Engine(
                     # Deduplication upstream.
                     return select
             case Projection():
-                if select.has_deduplication:
-                    # There was a Duplication upstream, so we need to ensure
+                if select.has_deduplication or (
+                    select.is_compound and not select.sort.columns_required <= operation.columns
+                ):
+                    # There was a Duplication upstream (or a Sort on a UNION
+                    # that needs columns this Projection drops, which cannot
+                    # be pushed into the UNION's operands), so we need to ensure
                     # that is applied before this Projection via a nested
                     # subquery.  Instead of applying the existing subquery
                     # operations, though, we apply one without any sort or
